@@ -51,7 +51,8 @@ CHECKS['C03'] = {
              'to every exit and each decrement is dominated by the rrs_left == 0 test; (b) none of the accessors / next* / into_iter_* can reach a store to or a mutable borrow of any ParsedPacket field; '
              '(d) ResponseIterator::next is next_including_opt followed by a skip that advances only under rr_type() == Type::OPT. '
              'Does NOT decide that the values returned equal an independent decode for every accepted packet, nor panic-freedom of the trusted readers (run-time invariants of accepted packets).'
-             ' (f) a step function returns None only on the true side of a `<header count | edns_count | rrs_left> == 0` test.'),
+             ' (f) a step function returns None only on the true side of a `<header count | edns_count | rrs_left> == 0` test.'
+             ' (g) the premise of the unchecked address readers: every accepting path with type A / AAAA passed the exact-size test.'),
     'note': 'Structural clauses only; the behavioural equality with an RFC 1035 decode is not claimed. Trusted: rustc MIR, the rule engines.',
 }
 CHECKS['C08'] = {
@@ -155,7 +156,8 @@ CHECKS['C15'] = {
              '(d) every int-returning entry returns 0 on the native Ok path and throw_err(..) (= -1, out-pointer stored only if non-null) on the Err path. '
              'Equality of results with the native API over whole hook scripts is NOT decided (it follows from thinness only informally).'
              ' (e) CErr\'s field is a CString which throw_err replaces by whole assignment with CString::new(<the reported error>.to_string()), never through a mutable borrow.'
-             ' For the value getters every source of the result must be the native call; the description store in throw_err cannot be skipped.'),
+             ' For the value getters every source of the result must be the native call; the description store in throw_err cannot be skipped.'
+             ' The iteration entries advance with next() and never use the OPT-including walk.'),
     'note': 'Trusted: clang 14 AST, tables/fn_table_map.json, rustc MIR. Fixed-size array parameters are bounds-checked by Rust itself once their sizes match the header (checked).',
 }
 CHECKS['C14'] = {
@@ -178,7 +180,8 @@ CHECKS['C02'] = {
              'OPT only in Additional with a 1-byte owner and at most once; limit constants 63 / 255 / 16 with the E4 ranges they produce; the label-byte predicate refuses exactly {0x00-0x1f, 0x7f, ., \\} (256-entry truth table) and DNAME has none; '
              'the name-bearing type sets of validator, decompressor, compressor and renamer coincide. '
              'NOT decided: that these clauses together are the whole accepted language (both directions of the iff), "never to a root label", completeness beyond the numeric limits.'
-             ' Also decided: every successful path of parse_opt raises the flag (edns_end = Some) that its only-one-OPT test reads.'),
+             ' Also decided: every successful path of parse_opt raises the flag (edns_end = Some) that its only-one-OPT test reads.'
+             ' Path-sensitively: every Ok path of parse_rr on which the type is A / AAAA passes the rdlen == 4 / 16 test.'),
     'note': 'Trusted: tables/policy.json, analysis/interp.py contracts, analysis/bits.py. Language equality is not a static object; only its visible clauses are claimed.',
 }
 CHECKS['C05'] = {
@@ -198,7 +201,8 @@ CHECKS['C06'] = {
     'text': ('Decides: (a) at SuffixDict::insert inside the worker the offset recorded equals the current output length: E4 derives len(out) - len0 = offset - offset0 in the loop and discharges base_offset + offset0 = len(out) at all three call sites; '
              '(b) compress_rdata: name-bearing set, data-length accounting (E4), fixed parts, OPT-including walk in compress(); (c) pointer bytes are (ref >> 8) | 0xc0, ref & 0xff of the dictionary result, an offset is stored / a hit returned only under offset < 16384 (exact constant, dominating test) and only for suffixes >= 3 bytes. '
              'NOT decided: case-insensitive matching, that decompressing gives the input back, the 16-pointer budget of the output (D18), table wrap-around.'
-             ' (d) no copy from the input packet below compress() takes an open-ended range packet[a..] (records behind the copied one would be emitted twice).'),
+             ' (d) no copy from the input packet below compress() takes an open-ended range packet[a..] (records behind the copied one would be emitted twice).'
+             ' (e) the comparison step of the suffix dictionary is ASCII case-insensitive equality for all 65536 byte pairs (E3).'),
     'note': 'SuffixDict::insert is opaque for the accounting. Trusted: analysis/interp.py contracts.',
 }
 CHECKS['C07'] = {
@@ -209,7 +213,8 @@ CHECKS['C07'] = {
              '(c) OPT is carried once, in place: the additional section is walked with OPT included (through the helper\'s parameter) and no copy from the input packet is open-ended; (d) replace_raw refuses an over-long result only for names that matched (no Ok(None) behind the length test). '
              'Validation-before-commit is decided under C10.a. NOT decided: which names match (run-time comparison), identity-rename equality.'
              ' (e) typestate over the label walk of replace_raw: a rewritten name is returned only on paths where name.len() - source.len() was found equal to a label boundary of the name.'
-             ' (f, E4) the bytes compared for a label are exactly the label_len bytes behind its length byte, aligned with the source (per-byte closure analysed for a generic index, or slices).'),
+             ' (f, E4) the bytes compared for a label are exactly the label_len bytes behind its length byte, aligned with the source (per-byte closure analysed for a generic index, or slices).'
+             ' (g) every comparison between name and source is the standard eq_ignore_ascii_case or a closure that E3 shows to be ASCII case-insensitive equality for all 65536 byte pairs.'),
     'note': 'Helpers above the size threshold are havocked for the accounting. Trusted: analysis/interp.py contracts.',
 }
 CHECKS['C13'] = {
